@@ -41,6 +41,20 @@ impl Ev {
         }
     }
     pub fn violation(&mut self, kind: &str, what: String, replay: String) {
+        // defect D3 (listed under C05 and C11, class inexactRatio) seen through another property's
+        // correspondence: the implementation refuses for want of 10⁻²⁷ of a share what the exact model accepts,
+        // on a security reorganised by a ratio that does not divide exactly. That is the known decimal residue,
+        // not a difference between model and code for this property to raise.
+        if kind == "correspondence" && what.contains("model accepts") {
+            if let Some(rest) = what.split("impl rejects (").nth(1) {
+                let mut it = rest.split(|c: char| c == ' ' || c == ')');
+                let (k, tk) = (it.next().unwrap_or(""), it.next().unwrap_or(""));
+                if matches!(k, "exceedsHolding" | "reservationExceedsBuy" | "unmatched") && replay_has_inexact_ratio(&replay, tk) {
+                    self.count("correspondence-skipped:inexact-ratio-residue (D3)");
+                    return;
+                }
+            }
+        }
         // keep the first few of each kind; one is enough to fail the check, but a failing input found by an
         // oracle late in the run must not be crowded out by earlier correspondence differences
         if self.violations.iter().filter(|v| v.kind == kind).count() < 5 {
@@ -65,4 +79,18 @@ impl Ev {
             "known_hits": self.known_hits.iter().map(|(k, v)| json!({"class": k, "what": v.0, "hits": v.1})).collect::<Vec<_>>(),
         })
     }
+}
+
+/// does the ledger printed in a replay text reorganise `ticker` by a ratio with a prime factor other than 2 and 5?
+fn replay_has_inexact_ratio(replay: &str, ticker: &str) -> bool {
+    replay.lines().any(|ln| {
+        let w: Vec<&str> = ln.split_whitespace().collect();
+        if w.len() < 5 || !(w[1] == "SPLIT" || w[1] == "UNSPLIT") || !w[2].eq_ignore_ascii_case(ticker) || w[3] != "RATIO" { return false; }
+        let Ok(r) = w[4].parse::<rust_decimal::Decimal>() else { return false };
+        let mut m = r.normalize().mantissa().unsigned_abs();
+        if m == 0 { return false; }
+        while m % 2 == 0 { m /= 2; }
+        while m % 5 == 0 { m /= 5; }
+        m != 1
+    })
 }
